@@ -108,7 +108,7 @@ MENUS = {
     "loc0free": dict(ctrl=False, timer=True, timer_irq=True, timer_loc=2, extra_map={"pf_buf": 7, "pf_hbuf": 5},
                      periphs=[("pf", [("st", "r32", 32), ("st", "r48", 48), ("ro", "s8", 8), ("mem", "buf", 8, 8, False),
                                       ("mem", "hbuf", 16, 4, False)], 6, "map", None),
-                              ("pg", [("st", "r12", 12), ("ev", ["e0"])], 4, "add", 3)],
+                              ("pg", [("st", "r12", 12), ("ev", ["e0"])], 12, "add", 3)],      # a location in the upper part of the CSR space
                      rams=[], roms=[]),
     # several instances, adjacent / non power-of-two bus memories, an initialised ROM (end-to-end image check)
     "multi": dict(ctrl=True, timer=True, timer_irq=False,
